@@ -60,6 +60,7 @@ func TestC07(t *testing.T) {
 			if n := w.arena.BadCount(); n > 0 {
 				w.Failf("bad-free", "allocator recorded a bad free: %v", w.arena.Report())
 			}
+			w.IdleCheck()
 		}
 		t.Repeat(acts)
 		rep := w.Shutdown()
